@@ -379,7 +379,16 @@ def site_of(e):
                     elif s[0] == "value":
                         got = loc[s[2]]
                     elif s[0] == "param":
-                        params[s[1]] = str(eval(s[1], env, loc))  # noqa: S307
+                        try:
+                            params[s[1]] = str(eval(s[1], env, loc))  # noqa: S307
+                        except NameError:
+                            # `except ... as e:` unbinds e when the block is left, also by a raise: the handled
+                            # exception is still reachable from the one it was turned into
+                            m = re.fullmatch(r"(?:str\()?([A-Za-z_][A-Za-z0-9_]*)\)?", s[1])
+                            if m and m.group(1) not in loc and e.__context__ is not None:
+                                params[s[1]] = str(e.__context__)
+                            else:
+                                raise
                     elif s[0] == "other":
                         return {"t": t, "unrenderable": True}
                 except Exception:  # noqa
